@@ -1999,14 +1999,17 @@ class QueryRetrieveServiceClass(ServiceClass):
                 LOGGER.info(msg)
 
                 # Update the C-STORE sub-operation result tracker
-                if store_status[0] == STATUS_FAILURE:
-                    store_results[1] += 1
-                    # Part 4, C.4.3.1.3.2
-                    _add_failed_instance(dataset)
-                elif store_status[0] == STATUS_WARNING:
+                #   Anything but Success or Warning (a Failure, or a status
+                #   that makes no sense for C-STORE such as Cancel or Pending)
+                #   means the sub-operation wasn't completed
+                if store_status[0] == STATUS_WARNING:
                     store_results[2] += 1
                 elif store_status[0] == STATUS_SUCCESS:
                     store_results[3] += 1
+                else:
+                    store_results[1] += 1
+                    # Part 4, C.4.3.1.3.2
+                    _add_failed_instance(dataset)
 
                 store_results[0] -= 1
 
@@ -2407,14 +2410,17 @@ class QueryRetrieveServiceClass(ServiceClass):
                 LOGGER.info(msg)
 
                 # Update the C-STORE sub-operation result tracker
-                if store_status[0] == STATUS_FAILURE:
-                    store_results[1] += 1
-                    # Part 4, C.4.2.1.4.2
-                    _add_failed_instance(dataset)
-                elif store_status[0] == STATUS_WARNING:
+                #   Anything but Success or Warning (a Failure, or a status
+                #   that makes no sense for C-STORE such as Cancel or Pending)
+                #   means the sub-operation wasn't completed
+                if store_status[0] == STATUS_WARNING:
                     store_results[2] += 1
                 elif store_status[0] == STATUS_SUCCESS:
                     store_results[3] += 1
+                else:
+                    store_results[1] += 1
+                    # Part 4, C.4.2.1.4.2
+                    _add_failed_instance(dataset)
 
                 store_results[0] -= 1
 
